@@ -148,6 +148,7 @@ func c20Same(got []byte, err error, want []byte) string {
 
 func c20NamesRun(t *testing.T, tape *simrt.Tape, o simwork.Opts) *simwork.Result {
 	simrt.Bump()
+	compression.C20PinProcs()
 	res := &simwork.Result{Faults: map[string]int{}, Probes: map[string]int{}}
 	cs := &c20NamesCase{}
 	res.Sample = cs
@@ -177,6 +178,7 @@ func c20NamesRun(t *testing.T, tape *simrt.Tape, o simwork.Opts) *simwork.Result
 		if len(p) == 0 {
 			res.Probes["empty-payload:"+enc.Name]++
 		}
+		res.Cover = append(res.Cover, fmt.Sprintf("names: %s raw-form=%s empty=%v chunked=%v", enc.Name, form, len(p) == 0, chunked))
 		tag := fmt.Sprintf("encoding=%s payload=%s", enc.Name, desc)
 
 		// (A) runner's compressor for the enum value -> wire tracer's decompressor for the name
